@@ -322,6 +322,13 @@ Proof.
   destruct (s_chan y =? ch) eqn:E; [discriminate|]. apply Z.eqb_neq in E.
   destruct Hin as [<-|Hin]; auto. eapply IH; eauto.
 Qed.
+Lemma find_slot_none_iff l idx ch : find_slot l idx ch = None <-> (forall x, In x l -> s_chan x <> ch).
+Proof.
+  split; [apply find_slot_none|]. revert idx. induction l as [|y l IH]; intros idx H; cbn; auto.
+  destruct (s_chan y =? ch) eqn:E.
+  - apply Z.eqb_eq in E. exfalso. apply (H y); cbn; auto.
+  - apply IH. intros x Hx. apply H. cbn; auto.
+Qed.
 
 Lemma passive_uptime s : ClockOK s -> NW s -> passive s (fst (uptime_msec s)) /\ snd (uptime_msec s) = rd s (now s)
   /\ now (fst (uptime_msec s)) = now s /\ outs (fst (uptime_msec s)) = outs s.
@@ -751,53 +758,70 @@ Proof.
   constructor; auto; try lia. exists []. auto.
 Qed.
 
-Lemma cd_cb_spec c due s :
-  Inv s -> Tr s -> NW (cd_cb c due s) ->
-  let s' := cd_cb c due s in
+Lemma emit_facts o s : forall s1, s1 = emit o s ->
+  slots s1 = slots s /\ now s1 = now s /\ outs s1 = o :: outs s /\ delay s1 = delay s /\ tcd s1 = tcd s /\ frame s s1 /\
+  (forall t, rd s1 t = rd s t) /\ (forall i, slot_at s1 i = slot_at s i).
+Proof.
+  intros s1 ->. repeat split; try reflexivity; cbn; try lia. eexists [_]; reflexivity.
+Qed.
+
+Lemma cd_cb_eq c due s :
+  cd_cb c due s = startstop (emit (GEvalEnd (now (cd_loop c (emit (GEvalStart due (now s)) s))))
+                                  (cd_loop c (emit (GEvalStart due (now s)) s))).
+Proof. reflexivity. Qed.
+
+Lemma cd_cb_spec c due s s' :
+  s' = cd_cb c due s -> Inv s -> Tr s -> NW s' ->
   Good s' /\ frame s s' /\ now s' <= now s + 8 * OP /\
   (forall i, (i < 8)%nat -> evald (now s) (now s') s (slot_at s i) (slot_at s' i)) /\
   (exists add, outs s' = add ++ outs s /\ Forall (fun o => isghost o = true -> eval_ghost s s' due o) add) /\
   ((tcd s' = tcd s /\ delay s' = delay s) \/ t_due (tcd s') = now s' + t_per (tcd s') \/ t_on (tcd s') = false).
 Proof.
-  intros I T N. cbv zeta. unfold cd_cb in *.
-  set (s1 := emit (GEvalStart due (now s)) s) in *.
-  set (s2 := cd_loop c s1) in *.
-  set (s3 := emit (GEvalEnd (now s2)) s2) in *.
-  assert (I1 : Inv s1) by (apply Inv_emit; auto).
-  assert (T1' : Tr s1) by (apply Tr_emit; auto; exact Logic.I).
-  assert (F01 : frame s s1) by (unfold s1; constructor; cbn; try reflexivity; try lia; eexists [_]; reflexivity).
-  assert (F12 : frame s1 s2) by apply cd_loop_frame.
-  assert (F23 : frame s2 s3) by (unfold s3; constructor; cbn; try reflexivity; try lia; eexists [_]; reflexivity).
-  pose proof (frame_startstop s3) as F34.
+  intros Es' I T N. rewrite cd_cb_eq in Es'.
+  remember (emit (GEvalStart due (now s)) s) as s1 eqn:Es1.
+  assert (I1 : Inv s1) by (subst s1; apply Inv_emit; auto).
+  assert (T1' : Tr s1) by (subst s1; apply Tr_emit; auto; exact Logic.I).
+  destruct (emit_facts _ _ _ Es1) as (Sl1 & Na & O1 & D1 & C1 & F01 & R1 & A1). clear Es1.
+  remember (cd_loop c s1) as s2 eqn:Es2.
+  assert (F12 : frame s1 s2) by (subst s2; apply cd_loop_frame).
+  remember (emit (GEvalEnd (now s2)) s2) as s3 eqn:Es3.
+  destruct (emit_facts _ _ _ Es3) as (Sl3 & Nb & O3 & D3 & C3 & F23 & R3 & A3).
+  pose proof (frame_startstop s3) as F34. rewrite <- Es' in F34.
   assert (N3 : NW s3) by (eapply NW_frame; eauto).
   assert (N2 : NW s2) by (eapply NW_frame; eauto).
-  pose proof (cd_loop_spec c s1 I1 T1' N2) as L. fold s2 in L. destruct L.
-  assert (I3 : Inv s3) by (apply Inv_emit; auto).
-  assert (T3 : Tr s3) by (apply Tr_emit; auto; exact Logic.I).
+  assert (L : LoopInv s1 s2 8) by (subst s2; apply cd_loop_spec; auto).
+  destruct L.
+  assert (I3 : Inv s3) by (subst s3; apply Inv_emit; auto).
+  assert (T3 : Tr s3) by (subst s3; apply Tr_emit; auto; exact Logic.I).
+  clear Es3.
   pose proof (startstop_spec s3 (i_tmr _ I3)) as SS. cbv zeta in SS.
-  set (s4 := startstop s3) in *.
+  rewrite <- Es' in SS. clear Es' Es2. rename s' into s4.
   destruct SS as (E1 & E2 & E3 & E4 & E5 & E6 & E7 & E8 & E9 & E10 & TM & TT & TD).
   assert (I4 : Inv s4) by (eapply Inv_timer; eauto).
   assert (Tr4 : Tr s4).
   { destruct T3. constructor; rewrite ?E1, ?E7, ?E4; auto. }
-  assert (Now13 : now s1 = now s /\ now s3 = now s2) by (split; reflexivity). destruct Now13 as [Na Nb].
   split; [constructor; auto|]. split; [|split; [|split; [|split]]].
   - eapply frame_trans; [exact F01|]. eapply frame_trans; [exact F12|]. eapply frame_trans; eauto.
   - rewrite E4, Nb. rewrite Na in lp_now0. change (Z.of_nat 8) with 8 in lp_now0. lia.
-  - intros i Hi. pose proof (lp_done0 i Hi) as EV. unfold slot_at in *. rewrite E1.
-    apply (evald_widen (now s1) (now s2)); [rewrite Na; lia | rewrite E4, Nb; lia | exact EV].
-  - destruct lp_outs0 as (add & O1 & O2).
+  - intros i Hi. pose proof (lp_done0 i Hi) as EV.
+    assert (A4 : slot_at s4 i = slot_at s2 i) by (unfold slot_at; rewrite E1, Sl3; reflexivity).
+    rewrite A4, <- A1. rewrite E4, Nb, <- Na.
+    destruct EV as [EV|(EA & tl & ER & ED)]; [left; exact EV|]. right. split; [exact EA|]. exists tl. split; [exact ER|].
+    rewrite <- R1. exact ED.
+  - destruct lp_outs0 as (add & O1' & O2).
     exists (GEvalEnd (now s2) :: add ++ [GEvalStart due (now s)]). split.
-    + rewrite E7. unfold s3. cbn [outs emit set_outs]. rewrite O1. unfold s1. cbn [outs emit set_outs].
-      cbn [app]. rewrite <- app_assoc. reflexivity.
+    + rewrite E7, O3, O1', O1. cbn [app]. rewrite <- app_assoc. reflexivity.
     + constructor; [|apply Forall_app; split].
       * intros _. right; left. exists (now s2). split; auto. rewrite E4, Nb. destruct F12. rewrite Na in fr_now0. lia.
-      * rewrite Forall_forall in *. intros o Ho Gh. right; right. 
-        destruct (O2 o Ho Gh) as (i & tl & P1 & P2 & P3 & P4 & P5).
-        exists i, tl. unfold slot_at in *. rewrite E1, E4, Nb. rewrite Na in P2. split; auto.
+      * apply Forall_forall. intros o Ho Gh. right; right.
+        pose proof (proj1 (Forall_forall _ _) O2) as O2'.
+        destruct (O2' o Ho Gh) as (i & tl & P1 & P2 & P3 & P4 & P5).
+        exists i, tl. rewrite E4, Nb. rewrite Na in P2. rewrite A1, R1 in P3. rewrite A1 in P4.
+        split; [exact P1|]. split; [exact P2|]. split; [exact P3|]. split; [exact P4|].
+        assert (A4 : slot_at s4 i = slot_at s2 i) by (unfold slot_at; rewrite E1, Sl3; reflexivity).
+        rewrite A4. exact P5.
       * constructor; auto. intros _. left. reflexivity.
-  - rewrite E4. change (tcd s3) with (tcd s2) in TD. change (delay s3) with (delay s2) in TD.
-    rewrite lp_tcd0, lp_delay0 in TD. exact TD.
+  - rewrite E4. rewrite C3, D3, lp_tcd0, lp_delay0, C1, D1 in TD. exact TD.
 Qed.
 
 (* ---------- how the set of running slots evolves ---------- *)
@@ -861,10 +885,8 @@ Lemma disarm_spec c ch s :
 Proof.
   intros Hch [I T TT]. cbv zeta. unfold disarm.
   destruct (find_slot (slots s) 0 ch) as [i|] eqn:EF.
-  2:{ split; [constructor; auto|]. split; [apply frame_refl|]. repeat split; auto.
-      - apply (find_slot_none _ _ _ EF).
-      - apply evo_refl.
-      - exists []; auto. }
+  2:{ split; [constructor; auto|]. split; [apply frame_refl|]. split; [auto|]. split; [auto|]. split; [auto|].
+      split; [apply (find_slot_none _ _ _ EF)|]. split; [apply evo_refl|]. exists []; auto. }
   apply find_slot_some in EF. destruct EF as (R & Ech & _). replace (i - 0) with i in * by lia.
   unfold len in R. rewrite (i_len _ I) in R. set (n := Z.to_nat i) in *.
   assert (Hn : (n < 8)%nat) by (unfold n; lia).
@@ -884,12 +906,12 @@ Proof.
   { destruct T. constructor; cbn [outs s1 set_slots slots now]; auto.
     intros * H. destruct (tr_fin0 _ _ _ _ _ _ _ H) as (A & B & C & D & G). repeat split; auto. }
   assert (TT1 : T1 s1).
-  { eapply T1_fewer; [reflexivity|reflexivity| |exact TT]. intros z Hz Az. exists z. auto. }
+  { apply (T1_fewer s s1); [reflexivity|reflexivity| |exact TT]. intros z Hz Az. exists z. auto. }
   assert (E1 : evo (fun _ => False) s s1).
   { intros z Hz Az. left. exists z. repeat split; auto; lia. }
   assert (F1 : frame s s1) by (constructor; cbn; try reflexivity; try lia; exists []; auto).
   destruct (0 <? s_left x).
-  2:{ split; [constructor; auto|]. repeat split; auto. exists []; auto. }
+  2:{ split; [constructor; auto|]. split; [auto|]. split; [auto|]. split; [auto|]. split; [auto|]. split; [auto|]. split; [auto|]. exists []; auto. }
   set (s2 := t2_set ch 0 s1).
   assert (P2 : passive s1 s2) by apply passive_t2_set.
   assert (P3 : passive s2 (match chflags_of c ch s2 with
@@ -909,4 +931,83 @@ Proof.
     split.
     + intros z Hz Az. rewrite (pa_slots _ _ P) in Hz. apply E1; auto.
     + destruct (pa_outs _ _ P) as (add & EO & FO). exists add. auto.
+Qed.
+
+(* ---------- supla_esp_countdown_timer_countdown ---------- *)
+Lemma countdown_spec e c ms gpio ch target sender s s' :
+  s' = countdown e c ms gpio ch target sender s ->
+  Good s -> 0 < ms < 4294967296 -> 0 <= ch < 255 -> (forall x, In x (slots s) -> s_chan x <> ch) -> NW s' ->
+  Good s' /\ frame s s' /\ now s' <= now s + 8 * OP /\ evo (fun k => k = ch) s s'.
+Proof.
+  intros Es' [I T TT] Hms Hch NoCh N. unfold countdown in Es'.
+  rewrite (proj2 (find_slot_none_iff (slots s) 0 ch) NoCh) in Es'.
+  destruct (find_slot (slots s) 0 255) as [i|] eqn:EF.
+  2:{ subst s'. split; [constructor; auto|]. split; [apply frame_refl|]. split; [|apply evo_refl].
+      destruct consts_ok; unfold OP; lia. }
+  apply find_slot_some in EF. destruct EF as (R & Ech & _). replace (i - 0) with i in * by lia.
+  unfold len in R. rewrite (i_len _ I) in R. set (n := Z.to_nat i) in *.
+  assert (Hn : (n < 8)%nat) by (unfold n; lia).
+  pose proof (frame_uptime s) as FU.
+  destruct (uptime_msec s) as [s1 u] eqn:EU. cbn [fst] in FU.
+  set (ynew := {| s_chan := ch; s_left := ms; s_last := u; s_gpio := gpio; s_target := target; s_sender := sender;
+                  g_t0 := now s; g_dur := ms; g_u0 := u; g_tl := now s |}) in *.
+  remember (set_slots (upd (slots s1) n ynew) (emit (GArm (now s) ch ms target) s1)) as s2 eqn:Es2.
+  remember (t2_set ch ms s2) as s3 eqn:Es3.
+  assert (F12 : frame s1 s2) by (subst s2; constructor; cbn; try reflexivity; try lia; eexists [_]; reflexivity).
+  assert (P23 : passive s2 s3) by (subst s3; apply passive_t2_set).
+  assert (F3' : frame s3 s').
+  { subst s'. destruct e; [apply (frame_trans _ (cd_loop c (emit (GEvalStart (if t_on (tcd s3) then t_due (tcd s3) else now s3) (now s3)) s3)))|apply frame_startstop].
+    - eapply frame_trans; [|apply cd_loop_frame]. constructor; cbn; try reflexivity; try lia. eexists [_]; reflexivity.
+    - rewrite cd_cb_eq. eapply frame_trans; [|apply frame_startstop]. constructor; cbn; try reflexivity; try lia. eexists [_]; reflexivity. }
+  assert (F03 : frame s s3) by (eapply frame_trans; [exact FU|]; eapply frame_trans; [exact F12|]; apply frame_passive; auto).
+  assert (N3 : NW s3) by (eapply NW_frame; eauto).
+  assert (N0 : NW s) by (eapply NW_frame; eauto).
+  pose proof (i_clk _ I) as CK.
+  destruct (passive_uptime s CK N0) as (P1 & U & N1 & O1). rewrite EU in *. cbn [fst snd] in *. subst u.
+  assert (I1 : Inv s1) by (eapply Inv_passive; eauto).
+  assert (T1' : Tr s1) by (eapply Tr_passive; eauto).
+  assert (Sl1 : slots s1 = slots s) by apply P1.
+  destruct CK as (Cu & Cl & C0 & Ct).
+  assert (Ay : active ynew = true).
+  { unfold active, ynew; cbn. apply andb_true_iff. split; [apply negb_true_iff, Z.eqb_neq; lia|apply Z.ltb_lt; lia]. }
+  assert (I2 : Inv s2).
+  { subst s2. apply (Inv_set_slot (emit (GArm (now s) ch ms target) s1)); [apply Inv_emit; auto|auto|].
+    right. split; auto. split.
+    - unfold ynew. constructor; cbn; try lia.
+      + unfold rd. cbn [cnt0 tb emit set_outs]. rewrite (pa_cnt0 _ _ P1), (pa_tb _ _ P1). reflexivity.
+      + unfold rd. cbn [cnt0 tb emit set_outs]. rewrite (pa_cnt0 _ _ P1), (pa_tb _ _ P1). reflexivity.
+      + rewrite (pa_tb _ _ P1), N1. lia.
+    - intros j Hj Ne. unfold slot_at. cbn [slots emit set_outs]. rewrite Sl1. cbn [s_chan ynew].
+      apply NoCh. apply nth_In. rewrite (i_len _ I). auto. }
+  assert (T2 : Tr s2).
+  { subst s2. destruct T1'. constructor; cbn [outs set_slots slots now emit set_outs].
+    - intros * [E|H]; [discriminate|].
+      destruct (tr_fin0 _ _ _ _ _ _ _ H) as (A & B & C & D & G).
+      split; [auto|]. split; [auto|]. split; [auto|]. split; [right; auto|].
+      intros y Hy Ay' Ey. apply In_upd in Hy. destruct Hy as [->|Hy]; [cbn; lia|]. apply G; auto.
+    - intros y Hy Ay'. apply In_upd in Hy. destruct Hy as [->|Hy]; [left; reflexivity|]. right. apply tr_arm0; auto.
+    - cbn [fins]. auto. }
+  assert (E02 : evo (fun k => k = ch) s s2).
+  { intros y Hy Ay'. subst s2. cbn [slots set_slots] in Hy. apply In_upd in Hy. destruct Hy as [->|Hy].
+    - right. cbn. split; [lia|reflexivity].
+    - left. exists y. rewrite Sl1 in Hy. repeat split; auto; lia. }
+  assert (I3 : Inv s3) by (eapply Inv_passive; eauto).
+  assert (T3 : Tr s3) by (eapply Tr_passive; eauto).
+  assert (E03 : evo (fun k => k = ch) s s3).
+  { apply (evo_trans _ s s2 s3); auto. - destruct FU, F12. lia. - apply evo_passive; auto. }
+  assert (Now3 : now s3 = now s).
+  { subst s3. rewrite now_t2_set. subst s2. cbn. auto. }
+  destruct e.
+  - destruct (cd_cb_spec c _ s3 s' Es' I3 T3 N) as (G' & F' & Nw & EV & _ & _).
+    split; [auto|]. split; [eapply frame_trans; eauto|]. split; [lia|].
+    apply (evo_trans _ s s3 s'); auto. + lia.
+    + apply evald_evo; auto. apply (i_len _ (g_inv _ G')).
+  - pose proof (startstop_spec s3 (i_tmr _ I3)) as SS. cbv zeta in SS. rewrite <- Es' in SS.
+    destruct SS as (E1 & E2 & E3 & E4 & E5 & E6 & E7 & E8 & E9 & E10 & TM & TT' & TD).
+    split; [constructor|].
+    + eapply Inv_timer; eauto.
+    + destruct T3. constructor; rewrite ?E1, ?E7, ?E4; auto.
+    + auto.
+    + split; [eapply frame_trans; eauto|]. split; [rewrite E4; destruct consts_ok; unfold OP; lia|].
+      apply (evo_trans _ s s3 s'); auto. * lia. * apply evo_same_slots; auto.
 Qed.
